@@ -205,6 +205,91 @@ def render(nf, trait, ty):
     return [[("hole", nf, trait, ty)]]
 
 
+VERBATIM_STEPS = {"attribute", "to_string", "to_owned", "from", "into", "clone", "cloned", "as_str", "as_ref", "as_deref", "deref", "Some", "Ok",
+                  "text", "ok_or", "ok_or_else", "unwrap_or_default", "borrow", "collect", "to_vec", "into_iter", "iter", "children", "descendants",
+                  "is_element", "tag_name", "name", "iter::filter", "iter::filter_map", "iter::map", "iter::flat_map", "is_empty", "not"}
+
+
+def _value_steps(n, out):
+    """short names of the calls on the value side of a collected list (the conditions of `filter` select elements, they do not
+    change what is stored)"""
+    if not isinstance(n, tuple):
+        return
+    if n[0] == "call":
+        short = str(n[1]).rsplit("::", 1)[-1] if not str(n[1]).startswith("iter::") else str(n[1])
+        out.append(short)
+        args = n[2]
+        if short in ("iter::filter", "iter::take_while", "iter::skip_while") and len(args) == 2:
+            _value_steps(args[0], out)       # (the predicate is not part of the value)
+            return
+        for a in args:
+            _value_steps(a, out)
+        return
+    if n[0] in ("lit", "param", "const", "local", "tok", "closure"):
+        return
+    if n[0] == "islet":
+        return
+    if n[0] == "ifelse":
+        _value_steps(n[2], out)
+        _value_steps(n[3], out)
+        return
+    for x in n[1:]:
+        if isinstance(x, tuple):
+            if x and isinstance(x[0], str):
+                _value_steps(x, out)
+            else:
+                for y in x:
+                    if isinstance(y, tuple):
+                        _value_steps(y, out)
+
+
+def rule_enumeration_verbatim(ck, F, rule="R1"):
+    """An `xs:enumeration` value is written into the output as a string literal that has to evaluate to the schema's text: leading or
+    trailing blanks are part of the value (whiteSpace=preserve for xs:string). Decided by provenance on the reader's side: what is
+    stored as the enumeration list is the `value` attribute of each `enumeration` child through copying steps only (the writer's
+    side, `{:?}`, is R1's literal-hole obligation)."""
+    from rules import anchors as A_
+    builders = [f_["path"] for f_ in A_._fn_items(F) if A_._norm_ty(f_["output"]) == "model::structures::restrictions::Restrictions"
+                and any("roxmltree::Node<" in A_._norm_ty(x) for x in f_["inputs"])]
+    if len(builders) != 1:
+        ck.undecided(rule, "enumeration-verbatim", "-", f"the function that reads a <restriction> into the model could not be attributed uniquely ({builders})")
+        return
+    W = og.EnvWalker(F)
+    CE = og.CallExpander(F)
+    found = []
+
+    def cb(e, env, ctx):
+        if e.get("k") == "Assign":
+            lhs = Hh.strip(e["a"])
+            if lhs.get("k") == "Field" and lhs["name"] == "enumeration":
+                found.append((Hh.sp(e), W.NF.nf(e["b"], env)))
+        if e.get("k") == "Struct" and (e["path"].get("path") or "").endswith("restrictions::Restrictions"):
+            for f in e["fields"]:
+                if f["name"] == "enumeration":
+                    found.append((Hh.sp(e), W.NF.nf(f["e"], env)))
+    try:
+        W.walk_fn(builders[0], cb)
+    except og.Unrecognised as u:
+        ck.undecided(rule, "enumeration-verbatim", "-", f"the reader of <restriction> is of unrecognised shape: {u.what}")
+        return
+    found = [(sp_, v_) for sp_, v_ in found if og.nf_str(v_) not in ("None",)]
+    if not found:
+        ck.undecided(rule, "enumeration-verbatim", F.lib.body(builders[0])["span"], "no place where the enumeration list of the model is filled was found")
+        return
+    for sp_, v_ in found:
+        steps = []
+        _value_steps(CE.expand(v_), steps)
+        extra = sorted({x for x in steps if x not in VERBATIM_STEPS})
+        if "attribute" not in steps and "text" not in steps:
+            ck.undecided(rule, "enumeration-verbatim", sp_, f"the enumeration values are not read off an attribute: {og.nf_str(v_)[:120]}")
+        elif extra:
+            ck.violation(rule, "enumeration-verbatim", sp_,
+                         f"the enumeration values stored in the model went through {extra} after they were read: the string literals written for them "
+                         f"do not evaluate to the schema's text (for xs:string every character of an enumeration value counts, blanks included)")
+        else:
+            ck.ok(rule, "enumeration-verbatim", sp_, "enumeration values are stored as they are read (copying steps only)")
+
+
 def run(ck, F):
     ck.explanation = (
         "Context-sensitive taint analysis on the output grammar: every template is rendered with a marker per hole and lexed with a "
@@ -225,6 +310,7 @@ def run(ck, F):
                   "character classes; unsupported operations are undecided)")
     ck.rule("R3", "every identifier-position hole passes through the keyword table (or is a PascalCase name, which only needs `Self` handled)")
     X = T.extractor(F)
+    rule_enumeration_verbatim(ck, F)
     CE = og.CallExpander(F)
     for fn, u in X.errors.items():
         ck.undecided("R1", f"unrecognised:{u.what[:60]}", "-", f"{fn}: {u.what}", fn=fn)
